@@ -296,6 +296,9 @@ func main() {
 			gs = append(gs, o.G)
 		}
 		r := sv.Check(append(append([]*Term{}, e.constraints...), Or(gs...)), *timeout, false)
+		if *verbose {
+			fmt.Fprintf(os.Stderr, "lazy-panic query: %s %dms (%d sites)\n", r.Status, r.Dur.Milliseconds(), len(e.lazyPanics))
+		}
 		if r.Status != "unsat" {
 			bySite := map[string][]*Term{}
 			var order []string
@@ -308,6 +311,9 @@ func main() {
 			var need []string
 			for _, site := range order {
 				r2 := sv.Check(append(append([]*Term{}, e.constraints...), Or(bySite[site]...)), *timeout, false)
+				if *verbose {
+					fmt.Fprintf(os.Stderr, "lazy-panic site %s: %s %dms\n", site, r2.Status, r2.Dur.Milliseconds())
+				}
 				if r2.Status != "unsat" {
 					need = append(need, site)
 				}
